@@ -113,7 +113,7 @@ def run_foreign(items, rundir, hashseed="4242", shards=8):
 
     procs = []
     for n, part in enumerate(chunk_list(items, shards)):
-        inp, outp = os.path.join(rundir, f"ident-in-{n}.json"), os.path.join(rundir, f"ident-out-{n}.json")
+        inp, outp = os.path.join(rundir, f"ident-in-{hashseed}-{n}.json"), os.path.join(rundir, f"ident-out-{hashseed}-{n}.json")
         json.dump(part, open(inp, "w"))
         env = dict(os.environ, PYTHONHASHSEED=hashseed, OPENBLAS_NUM_THREADS="1")
         procs.append((subprocess.Popen([sys.executable, "-c", "from harness.identity import foreign_main; foreign_main()", inp, outp],
